@@ -912,6 +912,8 @@ static void mode_badargs(void) {
  *   kind 0: one foreign byte just past the requested size, block freed by its own thread      -> EFAULT
  *   kind 1: the same, block freed by another thread (owner alive)                              -> EFAULT
  *   kind 2: second free of a block whose page holds another live block                         -> exactly one EAGAIN, ignored
+ *   kind 3: control: an intact block of a page in the full queue, freed by another thread (the free goes through the owner's
+ *           delayed list, a hardened build stores its link inside the block), owner collects     -> no report at all, block re-usable
  * ============================================================================================== */
 #if (MI_PADDING || MI_SECURE >= 4 || MI_DEBUG)
 #include <pthread.h>
@@ -944,6 +946,23 @@ static void hd_case(int kind, size_t n) {
     if (vf_model_alloc(b, n, 0, 0, 0, 0, "mi_malloc") < 0) return;
     if (vf_model_check_all("after double free") != 0) return;
 #endif
+    VF_INC(nontrivial);
+    return;
+  }
+  if (kind == 3) {
+    /* fill p's page until the allocator has moved it to the full queue */
+    const mi_page_t* pg = _mi_ptr_page(p);
+    for (int k = 0; k < 6000 && !mi_page_is_in_full(pg); k++) { void* q = mi_malloc(n); if (q == NULL) { VIOL("null-result", "mi_malloc(%zu) returned NULL", n); return; } }
+    if (!mi_page_is_in_full(pg)) return;                  /* (a page of its own: never in the full queue with another block) */
+    memset(p, 0x6B, n);
+    { pthread_t th; if (pthread_create(&th, NULL, hd_free_thread, p) != 0) { vf_sh->infra_error = 1; return; } pthread_join(th, NULL); }
+    if (vf_err_count != 0) { VIOL("false-report", "an intact %zu-byte block freed by another thread raised %d error reports (last code %d)", n, vf_err_count, vf_err_last); return; }
+    mi_collect(false);                                    /* the owner takes the block from its delayed list */
+    if (vf_err_count != 0) { VIOL("false-report", "an intact %zu-byte block freed by another thread (page in the full queue) raised %d error reports (last code %d) when its owner collected", n, vf_err_count, vf_err_last); return; }
+    void* a = mi_malloc(n);
+    if (a == NULL) { VIOL("null-result", "mi_malloc(%zu) returned NULL", n); return; }
+    if (vf_model_alloc(a, n, 0, 0, 0, 0, "mi_malloc") < 0) return;
+    if (vf_model_check_all("after remote free of an intact block") != 0) return;
     VF_INC(nontrivial);
     return;
   }
@@ -989,7 +1008,8 @@ static void mode_hardened(void) {
   for (int si = 0; si < g_nsizes + 130; si++) {
     size_t n = (si < 130 ? (size_t)si + 1 : g_sizes[si - 130]);     /* every size 1..130, then the boundary grid */
     if (n == 0 || n > 2 * MI_MiB) continue;
-    for (int kind = 0; kind < 3; kind++) {
+    for (int kind = 0; kind < 4; kind++) {
+      if (kind == 3 && n > 8 * 1024) continue;
       long my = idx++;
       if ((my % g_workers) != g_worker) continue;
       g_case = my;
